@@ -376,4 +376,257 @@ theorem flagMask_spec (f : Nat) :
   · have : ¬ (f % 2 ^ 18 + (f / 2 ^ 32 % 2 ^ 13) * 2 ^ 32 = 12) := fun x => h (key.mp x)
     simp [h, this]
 
+/-- **(b), strong form.** The validator returns exactly the first violated documented constraint (in the order
+of the `Error` enum), for every packed value and every feature set. -/
+theorem formatError_eq_firstViolated (feats : Features) (f : Nat) :
+    formatError feats f = firstViolated feats (unpack f) := by
+  obtain ⟨hs, hp, hx, hm, hb, hr⟩ := bytes_unpack f
+  obtain ⟨ls, lp, lx, -, -, -⟩ := unpack_bytes_lt f
+  cases hfmt : feats.format <;>
+  ( unfold formatError firstViolated checks
+    by_cases r1 : RadixSupported feats (unpack f).mantissaRadix
+    case neg =>
+      simp [hfmt, formatErrorFormat, formatErrorNoFormat, hm, isValidRadix_spec, r1, List.find?]
+    by_cases r2 : RadixSupported feats (unpack f).exponentBase
+    case neg =>
+      simp [hfmt, formatErrorFormat, formatErrorNoFormat, hm, hb, isValidRadix_spec, r1, r2, List.find?]
+    by_cases r3 : RadixSupported feats (unpack f).exponentRadix
+    case neg =>
+      simp [hfmt, formatErrorFormat, formatErrorNoFormat, hm, hb, hr, isValidRadix_spec, r1, r2, r3, List.find?]
+    have hR : (unpack f).digitRadix < 37 := by
+      have := (radixSupported_range r1).2; have := (radixSupported_range r3).2
+      unfold Unpacked.digitRadix; omega
+    have d1 : isValidDigitSeparator feats f =
+        decide (OptionalControl feats.format (unpack f).digitRadix (unpack f).digitSeparator) := by
+      unfold isValidDigitSeparator; simp only [hs]; exact optControl_spec f _ _ ls hR
+    have d2 : isValidBasePrefix feats f =
+        decide (OptionalControl (feats.format && feats.powerOfTwo) (unpack f).digitRadix (unpack f).basePrefix) := by
+      unfold isValidBasePrefix; simp only [hp]; exact optControl_spec f _ _ lp hR
+    have d3 : isValidBaseSuffix feats f =
+        decide (OptionalControl (feats.format && feats.powerOfTwo) (unpack f).digitRadix (unpack f).baseSuffix) := by
+      unfold isValidBaseSuffix; simp only [hx]; exact optControl_spec f _ _ lx hR
+    rw [hfmt] at d1
+    simp only [hfmt, Bool.false_and, Bool.true_and] at d2 d3
+    by_cases s1 : OptionalControl feats.format (unpack f).digitRadix (unpack f).digitSeparator
+    case neg =>
+      rw [hfmt] at s1
+      simp [hfmt, formatErrorFormat, formatErrorNoFormat, hm, hb, hr, isValidRadix_spec, r1, r2, r3, d1, s1, List.find?]
+    have d4 := punctuation_spec feats f s1
+    rw [hfmt] at s1
+    by_cases s2 : OptionalControl (feats.format && feats.powerOfTwo) (unpack f).digitRadix (unpack f).basePrefix
+    case neg =>
+      simp only [hfmt, Bool.false_and, Bool.true_and] at s2
+      simp [hfmt, formatErrorFormat, formatErrorNoFormat, hm, hb, hr, isValidRadix_spec, r1, r2, r3, d1, d2, s1, s2,
+        List.find?]
+    simp only [hfmt, Bool.false_and, Bool.true_and] at s2
+    by_cases s3 : OptionalControl (feats.format && feats.powerOfTwo) (unpack f).digitRadix (unpack f).baseSuffix
+    case neg =>
+      simp only [hfmt, Bool.false_and, Bool.true_and] at s3
+      simp [hfmt, formatErrorFormat, formatErrorNoFormat, hm, hb, hr, isValidRadix_spec, r1, r2, r3, d1, d2, d3, s1, s2,
+        s3, List.find?]
+    simp only [hfmt, Bool.false_and, Bool.true_and] at s3
+    by_cases s4 : PunctuationDistinct (unpack f)
+    case neg =>
+      simp [hfmt, formatErrorFormat, formatErrorNoFormat, hm, hb, hr, isValidRadix_spec, r1, r2, r3, d1, d2, d3, d4,
+        s1, s2, s3, s4, List.find?]
+    first
+    | ( have hff : feats.format = false := hfmt
+        by_cases e8 : FlagsAreDefault (unpack f) <;>
+          simp [hff, formatErrorNoFormat, hm, hb, hr, isValidRadix_spec, r1, r2, r3, d1, d2, d3, d4,
+            s1, s2, s3, s4, List.find?, flagMask_spec, e8] )
+    | ( have q := special_spec f
+        by_cases e1 : ExponentFlagsOk (unpack f)
+        case neg =>
+          simp [hfmt, formatErrorFormat, hm, hb, hr, isValidRadix_spec, r1, r2, r3, d1, d2, d3, d4,
+            s1, s2, s3, s4, List.find?, exponentFlags_spec, e1]
+        by_cases e2 : MantissaSignOk (unpack f)
+        case neg =>
+          simp [hfmt, formatErrorFormat, hm, hb, hr, isValidRadix_spec, r1, r2, r3, d1, d2, d3, d4,
+            s1, s2, s3, s4, List.find?, exponentFlags_spec, mantissaSign_spec, e1, e2]
+        by_cases e3 : ExponentSignOk (unpack f)
+        case neg =>
+          simp [hfmt, formatErrorFormat, hm, hb, hr, isValidRadix_spec, r1, r2, r3, d1, d2, d3, d4,
+            s1, s2, s3, s4, List.find?, exponentFlags_spec, mantissaSign_spec, exponentSign_spec, e1, e2, e3]
+        by_cases e4 : SpecialOk (unpack f)
+        case neg =>
+          simp only [e4, decide_false, Bool.not_false, Bool.or_eq_true] at q
+          rcases q with q | q <;>
+          simp [hfmt, formatErrorFormat, hm, hb, hr, isValidRadix_spec, r1, r2, r3, d1, d2, d3, d4,
+            s1, s2, s3, s4, List.find?, exponentFlags_spec, mantissaSign_spec, exponentSign_spec, e1, e2, e3, e4, q]
+        simp only [e4, decide_true, Bool.not_true, Bool.or_eq_false_iff] at q
+        by_cases e5 : IntegerConsecutiveOk (unpack f)
+        case neg =>
+          simp [hfmt, formatErrorFormat, hm, hb, hr, isValidRadix_spec, r1, r2, r3, d1, d2, d3, d4,
+            s1, s2, s3, s4, List.find?, exponentFlags_spec, mantissaSign_spec, exponentSign_spec, intConsec_spec,
+            e1, e2, e3, e4, e5, q]
+        by_cases e6 : FractionConsecutiveOk (unpack f)
+        case neg =>
+          simp [hfmt, formatErrorFormat, hm, hb, hr, isValidRadix_spec, r1, r2, r3, d1, d2, d3, d4,
+            s1, s2, s3, s4, List.find?, exponentFlags_spec, mantissaSign_spec, exponentSign_spec, intConsec_spec,
+            fracConsec_spec, e1, e2, e3, e4, e5, e6, q]
+        by_cases e7 : ExponentConsecutiveOk (unpack f) <;>
+          simp [hfmt, formatErrorFormat, hm, hb, hr, isValidRadix_spec, r1, r2, r3, d1, d2, d3, d4,
+            s1, s2, s3, s4, List.find?, exponentFlags_spec, mantissaSign_spec, exponentSign_spec, intConsec_spec,
+            fracConsec_spec, expConsec_spec, e1, e2, e3, e4, e5, e6, e7, q] ) )
+
+theorem firstViolated_success_iff (feats : Features) (u : Unpacked) :
+    firstViolated feats u = "Success" ↔ FormatValid feats u := by
+  unfold firstViolated checks FormatValid
+  by_cases c1 : RadixSupported feats u.mantissaRadix
+  case neg => simp [c1, List.find?]
+  by_cases c2 : RadixSupported feats u.exponentBase
+  case neg => simp [c1, c2, List.find?]
+  by_cases c3 : RadixSupported feats u.exponentRadix
+  case neg => simp [c1, c2, c3, List.find?]
+  cases hf : feats.format
+  · simp only [Bool.false_and]
+    by_cases c4 : OptionalControl false u.digitRadix u.digitSeparator
+    case neg => simp [c1, c2, c3, c4, List.find?]
+    by_cases c5 : OptionalControl false u.digitRadix u.basePrefix
+    case neg => simp [c1, c2, c3, c4, c5, List.find?]
+    by_cases c6 : OptionalControl false u.digitRadix u.baseSuffix
+    case neg => simp [c1, c2, c3, c4, c5, c6, List.find?]
+    by_cases c7 : PunctuationDistinct u
+    case neg => simp [c1, c2, c3, c4, c5, c6, c7, List.find?]
+    by_cases e : FlagsAreDefault u <;> simp [c1, c2, c3, c4, c5, c6, c7, e, List.find?]
+  · simp only [Bool.true_and]
+    by_cases c4 : OptionalControl true u.digitRadix u.digitSeparator
+    case neg => simp [c1, c2, c3, c4, List.find?]
+    by_cases c5 : OptionalControl feats.powerOfTwo u.digitRadix u.basePrefix
+    case neg => simp [c1, c2, c3, c4, c5, List.find?]
+    by_cases c6 : OptionalControl feats.powerOfTwo u.digitRadix u.baseSuffix
+    case neg => simp [c1, c2, c3, c4, c5, c6, List.find?]
+    by_cases c7 : PunctuationDistinct u
+    case neg => simp [c1, c2, c3, c4, c5, c6, c7, List.find?]
+    by_cases e1 : ExponentFlagsOk u
+    case neg => simp [c1, c2, c3, c4, c5, c6, c7, e1, List.find?]
+    by_cases e2 : MantissaSignOk u
+    case neg => simp [c1, c2, c3, c4, c5, c6, c7, e1, e2, List.find?]
+    by_cases e3 : ExponentSignOk u
+    case neg => simp [c1, c2, c3, c4, c5, c6, c7, e1, e2, e3, List.find?]
+    by_cases e4 : SpecialOk u
+    case neg => simp [c1, c2, c3, c4, c5, c6, c7, e1, e2, e3, e4, List.find?]
+    by_cases e5 : IntegerConsecutiveOk u
+    case neg => simp [c1, c2, c3, c4, c5, c6, c7, e1, e2, e3, e4, e5, List.find?]
+    by_cases e6 : FractionConsecutiveOk u
+    case neg => simp [c1, c2, c3, c4, c5, c6, c7, e1, e2, e3, e4, e5, e6, List.find?]
+    by_cases e7 : ExponentConsecutiveOk u <;>
+      simp [c1, c2, c3, c4, c5, c6, c7, e1, e2, e3, e4, e5, e6, e7, List.find?]
+
+/-- **(b) `formatError_spec`.** For every packed value (in particular every `f < 2^128`) and every feature set, the
+validator reports success exactly when the documented constraints hold. -/
+theorem formatError_spec (feats : Features) (f : Nat) :
+    formatError feats f = "Success" ↔ FormatValid feats (unpack f) := by
+  rw [formatError_eq_firstViolated]; exact firstViolated_success_iff feats (unpack f)
+
+theorem isValid_spec (feats : Features) (f : Nat) : isValid feats f = true ↔ FormatValid feats (unpack f) := by
+  unfold isValid; rw [beq_iff_eq]; exact formatError_spec feats f
+
+/-- non-vacuity: the standard format is valid in every feature set used, an invalid one is rejected with the
+documented kind, and the reserved bits (18..31, 45..63, 72..87) are ignored by the validator (with `format`) -/
+example : formatError {} 0xa0000000000000000000000000c = "Success" := by decide
+example : formatError { radix := true, powerOfTwo := true, format := true } 0xa0000000000000000000000003c
+    = "InvalidMantissaSign" := by decide
+example : FormatValid { format := true } (unpack (0xa0000000000000000000000000c + 2 ^ 63 + 2 ^ 80)) := by
+  rw [← formatError_spec]; decide
+
+/-! ## (d) `build_strict` panics exactly for the invalid formats -/
+
+theorem buildStrict_ok_iff (feats : Features) (b : Builder) :
+    b.buildStrict feats = .ok b.build ↔ FormatValid feats (unpack b.build) := by
+  rw [← formatError_spec]
+  unfold Builder.buildStrict
+  by_cases h : formatError feats b.build = "Success" <;> simp [h]
+
+/-- **(d)** `build_strict` panics (model: `.error kind`) ⇔ the built format violates a documented constraint,
+and the panic carries the first violated kind. -/
+theorem buildStrict_panics_iff (feats : Features) (b : Builder) :
+    (b.buildStrict feats = .error (firstViolated feats (unpack b.build))) ∧
+      firstViolated feats (unpack b.build) ≠ "Success" ↔ ¬ FormatValid feats (unpack b.build) := by
+  rw [← formatError_spec, ← formatError_eq_firstViolated]
+  unfold Builder.buildStrict
+  by_cases h : formatError feats b.build = "Success" <;> simp [h]
+
+/-! ## (c) builder: getters reflect setters; `rebuild`/`build` -/
+
+theorem getFlag_setFlag (b : Builder) (fl : Flag) (v : Bool) : (b.setFlag fl v).getFlag fl = v := by
+  simp [Builder.setFlag, Builder.getFlag]
+
+theorem getFlag_setFlag_ne (b : Builder) (fl fl' : Flag) (v : Bool) (h : fl' ≠ fl) :
+    (b.setFlag fl v).getFlag fl' = b.getFlag fl' := by
+  simp [Builder.setFlag, Builder.getFlag, h]
+
+/-- the byte setters change exactly their field (each Rust getter is the field read) -/
+theorem byte_setters (b : Builder) (c : Nat) :
+    (b.setDigitSeparator c).digitSeparator = c ∧ (b.setBasePrefix c).basePrefix = c ∧
+    (b.setBaseSuffix c).baseSuffix = c ∧ (b.setMantissaRadix c).mantissaRadix = c ∧
+    (b.setExponentBase c).exponentBase = c ∧ (b.setExponentRadix c).exponentRadix = c ∧
+    (b.setDigitSeparator c).flags = b.flags ∧ (b.setDigitSeparator c).basePrefix = b.basePrefix ∧
+    (b.setMantissaRadix c).exponentBase = b.exponentBase ∧ (b.setMantissaRadix c).exponentRadix = b.exponentRadix :=
+  ⟨rfl, rfl, rfl, rfl, rfl, rfl, rfl, rfl, rfl, rfl⟩
+
+/-- composite setters (`required_digits`, `internal_digit_separator`, `digit_separator_flags`, …) -/
+theorem getFlag_setFlags (b : Builder) (fls : List Flag) (v : Bool) (fl : Flag) :
+    (b.setFlags fls v).getFlag fl = if fl ∈ fls then v else b.getFlag fl := by
+  induction fls generalizing b with
+  | nil => simp [Builder.setFlags]
+  | cons x xs ih =>
+    simp only [Builder.setFlags, List.foldl_cons] at ih ⊢
+    rw [ih]
+    by_cases h : fl ∈ xs
+    · simp [h]
+    · by_cases hx : fl = x
+      · simp [h, hx, Builder.setFlag, Builder.getFlag]
+      · simp [h, hx, Builder.setFlag, Builder.getFlag]
+
+/-- **`rebuild` is NOT the inverse of `build_unchecked` on the unchanged tree.** `rebuild` reads the exponent
+base / radix through `flags::exponent_base` / `exponent_radix`, which substitute the mantissa radix for an absent
+(0) byte, so `None` comes back as `Some(mantissa_radix)`: -/
+theorem rebuild_build_counterexample :
+    (rebuild Builder.new.build).exponentBase = 10 ∧ Builder.new.exponentBase = 0 ∧
+    (rebuild 0xa0000000000000000000000000c).build = 0xa0a0a0000000000000000000000000c := by decide
+
+/-- the normal form `rebuild ∘ build` maps a builder to: exponent base / radix made explicit, digit separator
+dropped when no digit-separator flag is set -/
+def normalize (b : Builder) : Builder :=
+  { b with
+    digitSeparator := if (Flag.all.drop 18).any b.flags then b.digitSeparator else 0
+    exponentBase := if b.exponentBase = 0 then b.mantissaRadix else b.exponentBase
+    exponentRadix := if b.exponentRadix = 0 then b.mantissaRadix else b.exponentRadix }
+
+/-- (c) full statement, **not proved here** (left as a `Prop`; checked by the `rb` correspondence stream):
+`rebuild (build b) = normalize b` for builders within field ranges; in particular `rebuild (build b) = b` exactly
+when the exponent base and radix are explicit and (a digit-separator flag is set or there is no separator). -/
+def rebuild_build_full : Prop :=
+  ∀ b : Builder, b.InRange → rebuild b.build = normalize b
+
+/-- (c) other direction, **not proved here**: `build (rebuild f)` keeps the 31 flag bits, the prefix, suffix and
+mantissa-radix bytes; it clears the reserved bits 18..31, 45..63, 72..87; it clears the separator byte when no
+digit-separator flag is set; it replaces a zero exponent-base / exponent-radix byte by the mantissa radix. -/
+def build_rebuild_full : Prop :=
+  ∀ f : Nat, f < 2 ^ 128 →
+    let g := (rebuild f).build
+    g % 2 ^ 64 = f % 2 ^ 64 - (f / 2 ^ 18 % 2 ^ 14) * 2 ^ 18 - (f / 2 ^ 45 % 2 ^ 19) * 2 ^ 45 ∧
+    g / 2 ^ 64 % 2 ^ 8 = (if f / 2 ^ 32 % 2 ^ 13 = 0 then 0 else f / 2 ^ 64 % 2 ^ 8) ∧
+    g / 2 ^ 72 % 2 ^ 16 = 0 ∧
+    g / 2 ^ 88 % 2 ^ 24 = f / 2 ^ 88 % 2 ^ 24 ∧
+    g / 2 ^ 112 % 2 ^ 8 = (if f / 2 ^ 112 % 2 ^ 8 = 0 then f / 2 ^ 104 % 2 ^ 8 else f / 2 ^ 112 % 2 ^ 8) ∧
+    g / 2 ^ 120 = (if f / 2 ^ 120 % 2 ^ 8 = 0 then f / 2 ^ 104 % 2 ^ 8 else f / 2 ^ 120 % 2 ^ 8)
+
+/-- (c) proved part: the flags survive `rebuild ∘ build` whenever `build` is read back through the generated
+masks, i.e. `rebuild` returns for each flag the bit `build` stored (statement about `rebuild` alone). -/
+theorem rebuild_flags (f : Nat) (fl : Flag) : (rebuild f).flags fl = flagOf (unpack f) fl :=
+  hasFlag_unpack f fl
+
+theorem rebuild_bytes (f : Nat) :
+    (rebuild f).digitSeparator = (unpack f).digitSeparator ∧ (rebuild f).basePrefix = (unpack f).basePrefix ∧
+    (rebuild f).baseSuffix = (unpack f).baseSuffix ∧ (rebuild f).mantissaRadix = (unpack f).mantissaRadix ∧
+    (rebuild f).exponentBase = (unpack f).exponentBase ∧ (rebuild f).exponentRadix = (unpack f).exponentRadix := by
+  obtain ⟨h1, h2, h3, h4, h5, h6⟩ := bytes_unpack f
+  obtain ⟨-, -, -, l4, l5, l6⟩ := unpack_bytes_lt f
+  refine ⟨h1, h2, h3, ?_, ?_, ?_⟩
+  · show mantissaRadix f % 256 = _; rw [h4]; omega
+  · show exponentBase f % 256 = _; rw [h5]; unfold Unpacked.exponentBase; split <;> omega
+  · show exponentRadix f % 256 = _; rw [h6]; unfold Unpacked.exponentRadix; split <;> omega
+
 end LexVerif.Props.C18
